@@ -55,8 +55,7 @@ def SPEC_FILES(names=None):
     return [os.path.join(SPEC, n + ".tla") for n in names]
 
 
-def HARNESS_FILES():
-    out = []
-    for d, _dirs, files in os.walk(HARNESS):
-        out += [os.path.join(d, f) for f in files if f.endswith(".py")]
-    return sorted(out)
+def HARNESS_FILES(extra=()):
+    """Harness files whose content decides what a pipeline computes."""
+    base = ["observe.py", "render.py", "obsrun.py", "tlcrun.py", "corpus.py", "checks/prog.py"]
+    return [os.path.join(HARNESS, f) for f in base + list(extra)]
